@@ -100,3 +100,16 @@ for _w in ("rmse", "rmsle", "linear_residuals", "smape", "rpd", "rmspe", "linear
         requires=["len(points) >= 1"] + [_sub(r) for r in _base["requires"] if "len(y) == len(x)" not in r and "len(x) >= 1" not in r],
         ensures=[_sub(e) for e in _base["ensures"]],
     )
+
+# the two column-extracting wrappers themselves (definitional contracts; call sites elsewhere use the summaries of contracts/linear_fit.py)
+C[LF + "linear_fit_points"] = dict(
+    mode="R", owner="C16", params={"points": PTS}, returns=COEF,
+    requires=["len(points) >= 1"],
+    ensures=["implies(points[0][0] != points[len(points)-1][0], result[1] * points[0][0] + result[0] == points[0][1] "
+             "and result[1] * points[len(points)-1][0] + result[0] == points[len(points)-1][1])",
+             "implies(points[0][0] == points[len(points)-1][0], result[0] == 0 and result[1] == 0)"],
+)
+C[LF + "linear_transform_points"] = dict(
+    mode="R", owner="C16", params={"points": PTS, "coef": COEF}, returns=V,
+    requires=[], ensures=["len(result) == len(points)", "forall(0, len(points), lambda k: result[k] == points[k][0] * coef[1] + coef[0])"],
+)
